@@ -177,10 +177,26 @@ pub fn serde_check(w: &mut World, text: &TextRef, reader: Bk, artifact: Artifact
 }
 
 pub fn id_rel(w: &mut World, reader: Bk, a: &TextRef, b: &TextRef) {
-    let (Some((s1, f1, art1)), Some((s2, f2, art2))) = (w.resolve_text(a), w.resolve_text(b)) else {
+    let (Some((s1, mut f1, mut art1)), Some((s2, mut f2, mut art2))) = (w.resolve_text(a), w.resolve_text(b)) else {
         w.stats.bump("skipped:idrel-missing");
         return;
     };
+    // literal id texts: version and kind come from the header
+    let from_header = |s: &str| -> Option<(u8, Artifact)> {
+        let f = s.strip_prefix('k')?.chars().next()?.to_digit(10)? as u8;
+        let art = if s[2..].starts_with(".lid.") { Artifact::Lid } else if s[2..].starts_with(".pid.") { Artifact::Pid } else if s[2..].starts_with(".sid.") { Artifact::Sid } else { return None };
+        Some((f, art))
+    };
+    if matches!(a, TextRef::Lit { .. }) {
+        if let Some((f, art)) = from_header(&s1) {
+            (f1, art1) = (f, art);
+        }
+    }
+    if matches!(b, TextRef::Lit { .. }) {
+        if let Some((f, art)) = from_header(&s2) {
+            (f2, art2) = (f, art);
+        }
+    }
     if f1 != reader.family() || f2 != reader.family() || art1 != art2 {
         return;
     }
